@@ -91,3 +91,24 @@ Definition spec_decode (node_count parts : list nat) (nodes : list Z) : option c
 Definition spec_decode_container (g : container) (nodes : list Z) : option cells :=
   let nc := nodes_per_geometry g in
   spec_decode nc (match g_pnc g with Some p => p | None => nc end) nodes.
+
+(* ------------------------------------------------------------------------- *)
+(* datasets with several data variables (second pass)                         *)
+(* ------------------------------------------------------------------------- *)
+(* a data variable that names an existing, acceptable container and spans its cell dimension *)
+Definition good_dvar (conts : list gcont) (d : dvar) : Prop :=
+  exists c, nth_error conts (d_gid d) = Some c /\ accepted (c_g c) = true /\
+            mem (cont_celldim c) (d_dims d) = true.
+
+Definition good_dvarb (conts : list gcont) (d : dvar) : bool :=
+  match nth_error conts (d_gid d) with
+  | Some c => accepted (c_g c) && mem (cont_celldim c) (d_dims d)
+  | None => false
+  end.
+
+(* what CF gives a data variable: the cells of the container it names, whatever else is in the file *)
+Definition own_cells (conts : list gcont) (d : dvar) : option (list arr3 * option arr2) :=
+  match nth_error conts (d_gid d) with
+  | Some c => Some (map (read_bounds (c_g c)) (c_datas c), read_ring (c_g c))
+  | None => None
+  end.
